@@ -463,6 +463,9 @@ Plan gen_krylov_plan(uint64_t run_seed, const GenOpts& o)
     g.force_family = fams[r.below(6)];
     TaskSpec t;
     t.w = gen_world("C07", run_seed, g);
+    // arbitrary (non-Ritz) shifts on a rank-deficient operator leave the pinned tree's breakdown handling with O(1)
+    // orthogonality errors (KF-arnoldi-breakdown family): the direct driver uses full-rank operators
+    if (t.w.mclass == M_LOWRANK) t.w.mclass = M_SEPARATED;
     if (t.w.ncv > 20) t.w.ncv = 20;
     if (t.w.ncv < 3 && t.w.n >= 3) t.w.ncv = 3;
     t.w.nev = std::min(t.w.nev, t.w.ncv - (family_is_general(t.w.family) ? 2 : 1));
